@@ -19,5 +19,5 @@ Print R.
 """ % (case, expr)
 p = os.path.join(os.path.dirname(f), "dbg_%s.v" % cid)
 open(p, "w").write(out)
-r = subprocess.run(["coqc", "-R", "/verif/coq", "Verif", os.path.basename(p)], cwd=os.path.dirname(p), capture_output=True, text=True)
+r = subprocess.run(["coqc", "-R", os.environ.get("VERIF_COQ","/verif/coq"), "Verif", os.path.basename(p)], cwd=os.path.dirname(p), capture_output=True, text=True)
 print(r.stdout[-6000:], r.stderr[-2000:])
